@@ -3,6 +3,7 @@
  *   1. HINFO with a TAB in the CPU string      -> write ok, parse ARES_EBADSTR (parser demands printable ASCII, writer does not)
  *   2. CAA with an empty tag                    -> write ok, parse fails (parser demands a non-empty tag)
  *   3. RCODE 16 (BADVERS) without an OPT RR     -> write ok, parses back as a different rcode (upper 8 bits live in OPT)
+ *   4. URI with a control byte in the target    -> write ok, parse fails (parser demands a printable target)
  */
 #include <ares.h>
 #include <stdio.h>
@@ -42,6 +43,14 @@ int main(void)
   ares_dns_record_create(&rec, 3, ARES_FLAG_QR, ARES_OPCODE_QUERY, ARES_RCODE_BADSIG /* 16 */);
   ares_dns_record_query_add(rec, "example.com", ARES_REC_TYPE_A, ARES_CLASS_IN);
   bad |= check("rcode 16 without an OPT RR", rec, 16); ares_dns_record_destroy(rec);
+
+  /* 4. URI target with a control byte (reported in the fourth round; the target is not in character-string format) */
+  ares_dns_record_create(&rec, 4, ARES_FLAG_QR, ARES_OPCODE_QUERY, ARES_RCODE_NOERROR);
+  ares_dns_record_query_add(rec, "example.com", ARES_REC_TYPE_URI, ARES_CLASS_IN);
+  ares_dns_record_rr_add(&rr, rec, ARES_SECTION_ANSWER, "example.com", ARES_REC_TYPE_URI, ARES_CLASS_IN, 60);
+  ares_dns_rr_set_u16(rr, ARES_RR_URI_PRIORITY, 1); ares_dns_rr_set_u16(rr, ARES_RR_URI_WEIGHT, 1);
+  ares_dns_rr_set_str(rr, ARES_RR_URI_TARGET, "http://exa\x01mple.com/");
+  bad |= check("URI target with a control byte", rec, -1); ares_dns_record_destroy(rec);
 
   ares_library_cleanup();
   return bad;
